@@ -114,6 +114,7 @@ func checkSip(r *vlib.Run, d *vlib.Driver, c ccase) {
 func checkDrbg(r *vlib.Run, d *vlib.Driver, c ccase) {
 	seed := mustSeed(c.Seed)
 	n := int(c.N)
+	r.Case(c.key(), n >= 3)
 	g1, _ := drbg.NewHashDrbg(seed)
 	g2, _ := drbg.NewHashDrbg(seed)
 	g3, _ := drbg.NewHashDrbg(seed)
@@ -147,9 +148,71 @@ func checkDrbg(r *vlib.Run, d *vlib.Driver, c ccase) {
 			return
 		}
 	}
+	// S: returned blocks belong to the caller. (a) blocks retained across later draws keep their
+	// value; (b) scribbling over a returned block does not change what the generator returns
+	// afterwards (the stream is a function of the seed alone). Mixed NextBlock / Int63 draws.
+	g4, _ := drbg.NewHashDrbg(seed)
+	var kept [][]byte
+	for i := 0; i < n; i++ {
+		if i%3 == 2 {
+			v := g4.Int63()
+			var w [8]byte
+			binary.BigEndian.PutUint64(w[:], uint64(v))
+			want := append([]byte(nil), blocks[8*i:8*i+8]...)
+			want[0] &= 0x7f
+			if string(w[:]) != string(want) {
+				r.Violate("drbg-output-depends-on-caller-writes", "impl-oracle",
+					fmt.Sprintf("seed %s: after the caller overwrote returned blocks, draw #%d is %x, SipHash-OFB gives %x", c.Seed, i+1, w, want), c)
+				return
+			}
+			kept = append(kept, nil)
+			continue
+		}
+		b := g4.NextBlock()
+		if string(b) != string(blocks[8*i:8*i+8]) {
+			r.Violate("drbg-output-depends-on-caller-writes", "impl-oracle",
+				fmt.Sprintf("seed %s: after the caller overwrote returned blocks, block %d is %x, SipHash-OFB gives %x", c.Seed, i+1, b, blocks[8*i:8*i+8]), c)
+			return
+		}
+		kept = append(kept, b)
+		if i%2 == 0 {
+			for j := range b { // the caller owns the returned slice
+				b[j] ^= 0xa5
+			}
+		}
+	}
+	for i, b := range kept {
+		if b == nil {
+			continue
+		}
+		want := append([]byte(nil), blocks[8*i:8*i+8]...)
+		if i%2 == 0 {
+			for j := range want {
+				want[j] ^= 0xa5
+			}
+		}
+		if string(b) != string(want) {
+			r.Violate("drbg-returned-block-changes-after-later-draws", "impl-oracle",
+				fmt.Sprintf("seed %s: block %d retained by the caller was %x when returned and reads %x after %d later draws", c.Seed, i+1, want, b, n-1-i), c)
+			return
+		}
+	}
+	g5, _ := drbg.NewHashDrbg(seed)
+	var kept5 [][]byte
+	for i := 0; i < n; i++ {
+		kept5 = append(kept5, g5.NextBlock())
+	}
+	var late []byte
+	for _, b := range kept5 {
+		late = append(late, b...)
+	}
 	rep1 := d.Call("drbg.blocks %s %d", c.Seed, n)
 	rep2 := d.Call("drbg.int63s %s %d", c.Seed, n)
-	r.Case(c.key(), n >= 3)
+	if rep1 == vlib.Hex(blocks) && vlib.Hex(late) != rep1 {
+		r.Violate("drbg-returned-block-changes-after-later-draws", "impl-oracle",
+			fmt.Sprintf("seed %s: %d blocks collected first and read afterwards are %s, the generator's stream is %s", c.Seed, n, vlib.Hex(late), rep1), c)
+		return
+	}
 	r.Validated(2)
 	r.Count("drbg-blocks", strconv.Itoa(n))
 	r.Sample(2, map[string]interface{}{"op": "drbg.blocks", "seed": c.Seed, "n": n, "impl": vlib.Hex(blocks), "model": rep1})
@@ -163,6 +226,12 @@ func checkDrbg(r *vlib.Run, d *vlib.Driver, c ccase) {
 	if rep2 != want2 {
 		r.Violate("drbg-int63-model-impl-disagree", "correspondence", fmt.Sprintf("seed %s: impl %s, Lean model %s", c.Seed, want2, rep2), c)
 	}
+}
+
+// safeNew is probdist.New with a panic turned into a string.
+func safeNew(seed *drbg.Seed, min, max int64, biased bool) (w *probdist.WeightedDist, pan string) {
+	pan = protect(func() { w = probdist.New(seed, int(min), int(max), biased) })
+	return
 }
 
 // ---------------------------------------------------------------- tables
@@ -274,11 +343,17 @@ func checkTable(r *vlib.Run, d *vlib.Driver, c ccase) {
 		"values": clip(joinInts(t.values), 120), "impl_eq_model": rep == impl})
 
 	// S: determinism — a second construction and a Reset of a differently seeded object
-	w2 := probdist.New(seed, int(c.Min), int(c.Max), c.Biased)
+	w2, p2 := safeNew(seed, c.Min, c.Max, c.Biased)
 	var other drbg.Seed
 	copy(other[:], []byte("a completely different seed....."))
-	w3 := probdist.New(&other, int(c.Min), int(c.Max), c.Biased)
-	w3.Reset(seed)
+	w3, p3 := safeNew(&other, c.Min, c.Max, c.Biased)
+	if p2 == "" && p3 == "" {
+		p3 = protect(func() { w3.Reset(seed) })
+	}
+	if p2 != "" || p3 != "" {
+		r.Violate("new-panics", "impl-oracle", fmt.Sprintf("probdist.New/Reset(%d, %d, %v) panicked: %s%s", c.Min, c.Max, c.Biased, p2, p3), c)
+		return
+	}
 	if s2, s3 := getTables(w2).String(), getTables(w3).String(); s2 != impl || s3 != impl {
 		r.Violate("tables-not-a-function-of-seed", "impl-oracle", fmt.Sprintf("seed %s bounds %d..%d biased %v: New twice / Reset give different tables", c.Seed, c.Min, c.Max, c.Biased), c)
 		return
@@ -355,7 +430,12 @@ func int63Bytes(v uint64) []byte {
 
 func checkSample(r *vlib.Run, d *vlib.Driver, c ccase) {
 	seed := mustSeed(c.Seed)
-	w := probdist.New(seed, int(c.Min), int(c.Max), c.Biased)
+	w, pn := safeNew(seed, c.Min, c.Max, c.Biased)
+	if pn != "" {
+		r.Case(c.key(), false)
+		r.Violate("new-panics", "impl-oracle", fmt.Sprintf("probdist.New(%s, %d, %d, %v) panicked: %s", c.Seed, c.Min, c.Max, c.Biased, pn), c)
+		return
+	}
 	t := getTables(w)
 	k := int(c.N)
 	tapeMu.Lock()
@@ -552,6 +632,11 @@ func checkFloat64(r *vlib.Run, d *vlib.Driver, c ccase) {
 }
 
 func runCase(r *vlib.Run, d *vlib.Driver, c ccase) {
+	defer func() {
+		if p := recover(); p != nil {
+			r.Violate("panic-in-"+c.Op, "impl-oracle", fmt.Sprintf("case %s panicked: %v", c.key(), p), c)
+		}
+	}()
 	switch c.Op {
 	case "sip":
 		checkSip(r, d, c)
@@ -694,7 +779,7 @@ func main() {
 	}
 
 	// --- tables (parallel: one Lean driver per worker)
-	cases := genTableCases(rng.Fork(), r.Scale(2000, 60000))
+	cases := genTableCases(rng.Fork(), r.Scale(6000, 200000))
 	// the seed of defect F2 (its 0..1448 table contains the value 0) is always part of the run
 	cases = append(cases, ccase{Op: "table", Seed: "7ef48387434acfdfad39600095080bec6908f8757e299b8d", Min: 0, Max: 1448, Biased: false})
 	cases = append(cases, ccase{Op: "table", Seed: hex.EncodeToString(rng.Bytes(24)), Min: 3, Max: 3}, ccase{Op: "table", Seed: hex.EncodeToString(rng.Bytes(24)), Min: 4, Max: 2})
@@ -723,8 +808,10 @@ func main() {
 	for i, n := 0, r.Scale(400, 6000); i < n; i++ {
 		b := boundsList[srng.Intn(len(boundsList))]
 		seed := hex.EncodeToString(srng.Bytes(24))
-		w := probdist.New(mustSeed(seed), int(b[0]), int(b[1]), i%2 == 0)
-		nv := len(getTables(w).values)
+		nv := 1
+		if w, pn := safeNew(mustSeed(seed), b[0], b[1], i%2 == 0); pn == "" {
+			nv = len(getTables(w).values)
+		}
 		k := srng.Range(1, 12)
 		runCase(r, d, ccase{Op: "sample", Seed: seed, Min: b[0], Max: b[1], Biased: i%2 == 0, N: int64(k), Tape: vlib.Hex(steerSample(srng, nv, k))})
 	}
@@ -732,8 +819,10 @@ func main() {
 	for i, n := 0, r.Scale(6, 60); i < n; i++ {
 		b := boundsList[i%3]
 		seed := hex.EncodeToString(srng.Bytes(24))
-		w := probdist.New(mustSeed(seed), int(b[0]), int(b[1]), i%2 == 0)
-		nv := len(getTables(w).values)
+		nv := 1
+		if w, pn := safeNew(mustSeed(seed), b[0], b[1], i%2 == 0); pn == "" {
+			nv = len(getTables(w).values)
+		}
 		for die := 0; die < nv; die++ {
 			for _, coin := range []uint64{0, 1 << 62, 1<<63 - 1024} {
 				tp := append(int63Bytes(uint64(die)<<32), int63Bytes(coin)...)
